@@ -3,18 +3,29 @@
    Remove = LoadAndDelete, Has = Load, AddSet/RemoveSet = Range over the argument
    with a nested Add/Remove per element, Len = counting Range).
 
-   PARTIAL. Proved here: the law that turns linearizability into the statement
-   of the property — in every legal sequential history of a set, for each value
-   the successful Adds and Removes alternate starting with an Add, their balance
-   is the final membership (0 or 1), and a Has that reports true is preceded by a
-   successful Add. A linearization is by definition consistent with real time,
-   so this is exactly "alternate ... in an order consistent with real time".
-   NOT yet proved: that every history of the small-step machine is linearizable
-   to the set specification (C04's linearizability theorem; the concurrent
-   invariants are under way in SyncMap/Inv.v). Until then the concurrent part is
-   carried by controlled-schedule trace validation against the model plus the
-   brute-force per-set linearizability oracle and the conservation check of
-   harness/c05. *)
+   Contents (all on the small-step model SyncMap/Model.v, every number of
+   goroutines, every program length, every schedule at the granularity of the
+   individual atomic / mutex operations; the model is tied to the real code by
+   trace replay, harness/c05):
+   1. the sequential law that turns linearizability into the statement of the
+      property: in every legal sequential history of a set, for each value the
+      successful Adds and Removes alternate starting with an Add, their balance
+      is the final membership (0 or 1), and a Has that reports true is preceded
+      by a successful Add (SetSpec.v);
+   2. per-value conservation in every reachable configuration, any number of
+      sets (SetAtomic.v);
+   3. every history of Add / Remove / Has on one Set is linearizable to the
+      sequential set, and the linearization order is a legal set history: the
+      alternation law holds in an order consistent with real time
+      (C05_set_linearizable, C05_atomic_set; SetLin.v, from C04_linearizable);
+   4. real-time consequences stated on the positions of the events of the
+      history: Has never misses a stably present value, two Adds of one value
+      one after the other cannot both succeed without a Remove around
+      (C05_after_add, C05_has_after_add, C05_add_after_add; SetRT.v);
+   5. the counts of AddSet / RemoveSet / Len add up (SetCounts.v).
+   AddSet / RemoveSet are not atomic (a Range plus one atomic Add / Remove per
+   element) and are covered by 2 and 5 only; see bin/props/C05.json for what
+   is left to the harness. *)
 From Typ Require Import SyncMap.SetSpec.
 From stdpp Require Import gmap.
 
@@ -55,22 +66,22 @@ Proof. split; [|reflexivity]. simpl. repeat split; symmetry; try (apply bool_dec
    by more than the calls in flight, whatever the interleaving; and when all
    goroutines are done the balance IS the membership (second theorem). Uses the
    concurrent invariants of SyncMap/Inv.v and the entry-reference discipline of
-   SyncMap/SetAtomic.v (part A). Not covered here: AddSet / RemoveSet / Len
-   (Range with a nested call) and the real-time order of the alternation
-   (needs the linearizability theorem of C04). *)
+   SyncMap/SetAtomic.v (part A). [frag] excludes AddSet / RemoveSet / Len (Range
+   with a nested call): their counts are the last section of this file; the
+   real-time order of the alternation is the next section (C05_atomic_set). *)
 From Typ Require Import SyncMap.Model SyncMap.Inv SyncMap.SetAtomic.
 
-Theorem C05_conservation : forall n progs sched j k i,
+Theorem C05_conservation : forall zs progs sched j k i,
   Forall (Forall frag) progs ->
-  let c := run_schedule (init_config n progs) sched in
+  let c := run_schedule (init_config_z zs progs) sched in
   nth_error (c_insts c) j = Some i ->
   (stored j k (c_hist c) - deleted j k (c_hist c) + pending j k c = Aof (i_st i) k)%Z.
 Proof. exact conservation. Qed.
 Print Assumptions C05_conservation.
 
-Theorem C05_conservation_quiescent : forall n progs sched j k i,
+Theorem C05_conservation_quiescent : forall zs progs sched j k i,
   Forall (Forall frag) progs ->
-  let c := run_schedule (init_config n progs) sched in
+  let c := run_schedule (init_config_z zs progs) sched in
   nth_error (c_insts c) j = Some i -> finished c = true ->
   (stored j k (c_hist c) - deleted j k (c_hist c) = Aof (i_st i) k)%Z.
 Proof. exact conservation_quiescent. Qed.
@@ -88,7 +99,7 @@ Definition c05_view (c : config) :=
    map thread_label (c_threads c)).
 
 Example C05_conservation_example :
-  let c1 := run_schedule (init_config 1 c05_progs) (c05_sch [0;0;0;0;0]) in    (* G0's Add has inserted, not yet unlocked *)
+  let c1 := run_schedule (init_config_z [true] c05_progs) (c05_sch [0;0;0;0;0]) in    (* G0's Add has inserted, not yet unlocked *)
   let c2 := run_schedule c1 (c05_sch [0; 0;0;0;0;0]) in                        (* Add returns; Remove: read1 lock read2 promote unlock *)
   let c3 := run_schedule c2 (c05_sch [1;1;1;1;1;1]) in                         (* G1's Add, complete *)
   let c4 := run_schedule c3 (c05_sch [0;0; 1;1;1;1;1;1]) in                    (* Remove's delete.load, delete.cas; G1's Has *)
@@ -112,9 +123,9 @@ Proof. vm_compute. repeat split; repeat constructor. Qed.
    (SyncMap/SetLin.v). *)
 From Typ Require Import Lib.Lin SyncMap.Linearizable SyncMap.SetLin.
 
-Theorem C05_set_linearizable : forall progs sched,
+Theorem C05_set_linearizable : forall z progs sched,
   Forall (Forall set_frag) progs ->
-  linearizable set_spec ∅ (map_hist (run_schedule (init_config 1 progs) sched)).
+  linearizable set_spec ∅ (map_hist (run_schedule (init_config_z [z] progs) sched)).
 Proof. exact set_linearizable. Qed.
 Print Assumptions C05_set_linearizable.
 
@@ -131,9 +142,9 @@ Print Assumptions C05_set_linearizable.
      order, starting with an Add, and #successful Adds - #successful Removes is
      the value's membership (0 or 1): two Adds (or two Removes) of one value
      that both succeed are always separated by a successful Remove (Add). *)
-Theorem C05_atomic_set : forall progs sched,
+Theorem C05_atomic_set : forall z progs sched,
   Forall (Forall set_frag) progs ->
-  let c := run_schedule (init_config 1 progs) sched in
+  let c := run_schedule (init_config_z [z] progs) sched in
   exists (s : gset Z) (P : nat -> option (call * option res)) (o : list (nat * call * res)),
     poss_ord set_spec ∅ (rev (map_hist c)) s P o /\
     (forall v, v ∈ s <-> abs_lookup (st0 c) v <> None) /\
@@ -152,7 +163,7 @@ Print Assumptions C05_atomic_set.
    Remove is still in flight). *)
 Example C05_atomic_set_example :
   Forall (Forall set_frag) c05_progs /\
-  map_hist (run_schedule (init_config 1 c05_progs)
+  map_hist (run_schedule (init_config_z [true] c05_progs)
               (c05_sch ([0;0;0;0;0] ++ [0; 0;0;0;0;0] ++ [1;1;1;1;1;1] ++ [0;0; 1;1;1;1;1;1]))) =
     [HInv 0 (CLoadOrStore 0 5 0 PNone); HRes 0 (RLos 0 false);
      HInv 0 (CLoadAndDelete 0 5);
@@ -160,3 +171,206 @@ Example C05_atomic_set_example :
      HRes 0 (ROpt (Some 0));
      HInv 1 (CLoad 0 5); HRes 1 (ROpt (Some 0))]%Z.
 Proof. split; [repeat constructor|vm_compute; reflexivity]. Qed.
+
+(* ------------------------------------------------------------------ *)
+(* Real time, on the positions of the events of the history            *)
+(* ------------------------------------------------------------------ *)
+(* Consequences of linearizability (markers lie inside the calls' intervals)
+   spelled out on the history itself (SyncMap/SetRT.v). The history, oldest
+   event first, is cut as
+     h0 ++ [HInv t1 Add(v)] ++ hA ++ [HRes t1 r1] ++ h2 ++ [HInv t2 c2] ++ hB ++ [HRes t2 r2] ++ h4
+   where hA has no event of t1 and hB none of t2 ([no_ev]), so r1 / r2 are the
+   responses to these two invocations: the Add(v) has RETURNED (with either
+   result) before c2 is INVOKED. "No Remove(v) around": no Remove(v) is pending
+   when the Add is invoked ([pend_call h0 t]: the call of t invoked and not yet
+   answered in h0) and none is invoked before c2 returns. Then c2 gets the
+   result it has on a set containing v. A Remove(v) that is pending at the
+   Add's invocation or invoked later may take effect anywhere in its interval,
+   so nothing can be said in its presence (C05_atomic_set_example: the second
+   Add succeeds while a Remove is in flight). *)
+From Typ Require Import Lib.LinHW SyncMap.SetRT.
+
+(* for any linearizable history *)
+Theorem C05_after_add : forall v (h0 hA h2 hB h4 : list hev) t1 c1 r1 t2 c2 r2,
+  linearizable set_spec ∅ (h0 ++ [HInv t1 c1] ++ hA ++ [HRes t1 r1] ++ h2 ++ [HInv t2 c2] ++ hB ++ [HRes t2 r2] ++ h4) ->
+  is_add v c1 -> no_ev t1 hA -> no_ev t2 hB -> ~ is_remove v c2 ->
+  (forall t c, pend_call h0 t = Some c -> ~ is_remove v c) ->
+  (forall t c, In (HInv t c) (hA ++ h2 ++ hB) -> ~ is_remove v c) ->
+  exists sm, v ∈ sm /\ r2 = snd (set_spec sm c2).
+Proof. exact set_after_add. Qed.
+Print Assumptions C05_after_add.
+
+(* Has never misses a value that is stably present *)
+Theorem C05_has_after_add : forall z progs sched v (h0 hA h2 hB h4 : list hev) t1 j1 x1 p1 r1 t2 j2 r2,
+  Forall (Forall set_frag) progs ->
+  map_hist (run_schedule (init_config_z [z] progs) sched) =
+    h0 ++ [HInv t1 (CLoadOrStore j1 v x1 p1)] ++ hA ++ [HRes t1 r1] ++ h2 ++ [HInv t2 (CLoad j2 v)] ++ hB ++ [HRes t2 r2] ++ h4 ->
+  no_ev t1 hA -> no_ev t2 hB ->
+  (forall t c, pend_call h0 t = Some c -> ~ is_remove v c) ->
+  (forall t c, In (HInv t c) (hA ++ h2 ++ hB) -> ~ is_remove v c) ->
+  r2 = ROpt (Some 0%Z).
+Proof. exact has_after_add. Qed.
+Print Assumptions C05_has_after_add.
+
+(* an Add(v) invoked after an Add(v) has returned reports "already present":
+   two Adds of v, the second invoked after the first returned, never both
+   succeed unless a Remove(v) is pending or invoked in between *)
+Theorem C05_add_after_add : forall z progs sched v (h0 hA h2 hB h4 : list hev) t1 j1 x1 p1 r1 t2 j2 x2 p2 r2,
+  Forall (Forall set_frag) progs ->
+  map_hist (run_schedule (init_config_z [z] progs) sched) =
+    h0 ++ [HInv t1 (CLoadOrStore j1 v x1 p1)] ++ hA ++ [HRes t1 r1] ++ h2 ++ [HInv t2 (CLoadOrStore j2 v x2 p2)] ++ hB ++ [HRes t2 r2] ++ h4 ->
+  no_ev t1 hA -> no_ev t2 hB ->
+  (forall t c, pend_call h0 t = Some c -> ~ is_remove v c) ->
+  (forall t c, In (HInv t c) (hA ++ h2 ++ hB) -> ~ is_remove v c) ->
+  r2 = RLos 0 true.
+Proof. exact add_after_add. Qed.
+Print Assumptions C05_add_after_add.
+
+(* The classic formulation of Herlihy & Wing (Lib/LinHW.v, C04_markers_imply_
+   classic): a sequential history S of (thread, call, result) that is a legal
+   run of the set specification, consists thread by thread, in program order,
+   of exactly the operations of the history (all completed ones with the
+   reported results, plus at most the pending one: [invs] / [ress] / [sel]),
+   and respects real time: for every cut h = h1 ++ h2, S = S1 ++ S2 with S1
+   containing every operation completed in h1 and only operations invoked in
+   h1. (This is the bijection between completed calls and entries of the order
+   that the link clauses of C05_atomic_set leave implicit.) *)
+Theorem C05_set_linearizable_classic : forall z progs sched,
+  Forall (Forall set_frag) progs ->
+  let h := map_hist (run_schedule (init_config_z [z] progs) sched) in
+  exists (s : gset Z) (S : list (nat * call * res)),
+    spec_run set_spec ∅ (calls S) = (s, results S) /\
+    (forall t, exists l1 l2, invs t h = calls (sel t S) ++ l1 /\ results (sel t S) = ress t h ++ l2 /\
+                             length l1 + length l2 <= 1) /\
+    (forall h1 h2, h = h1 ++ h2 -> exists S1 S2, S = S1 ++ S2 /\
+       forall t, length (ress t h1) <= length (sel t S1) <= length (invs t h1)).
+Proof. exact set_linearizable_classic. Qed.
+Print Assumptions C05_set_linearizable_classic.
+
+(* Non-vacuity: G0 = Add 5, G1 = Has 5; Add 5, G2 = Add 7; Remove 7. G2's Add 7
+   is pending when G0's Add 5 is invoked, G1's Has 5 is invoked after G0's Add
+   returned and overlaps G2's calls; it reports true, and G1's Add 5 reports
+   "already present". Both cuts of the history satisfy the hypotheses. *)
+Definition rt_progs : list (list call) :=
+  [[CLoadOrStore 0 5 0 PNone]; [CLoad 0 5; CLoadOrStore 0 5 0 PNone]; [CLoadOrStore 0 7 0 PNone; CLoadAndDelete 0 7]]%Z.
+Definition rt_sched : list (nat * Z) :=
+  c05_sch ([2] ++ repeat 0 8 ++ [1] ++ repeat 2 9 ++ repeat 1 9 ++ repeat 2 3 ++ repeat 1 10 ++ repeat 2 10).
+Definition rt_add5 := CLoadOrStore 0 5 0 PNone.
+Definition rt_add7 := CLoadOrStore 0 7 0 PNone.
+
+Example C05_after_add_example :
+  (let h := map_hist (run_schedule (init_config_z [true] rt_progs) rt_sched) in
+  Forall (Forall set_frag) rt_progs /\
+  (* Has 5 after Add 5 *)
+  h = [HInv 2 rt_add7] ++ [HInv 0 rt_add5] ++ [] ++ [HRes 0 (RLos 0 false)] ++ [] ++
+      [HInv 1 (CLoad 0 5)] ++ [HRes 2 (RLos 0 false); HInv 2 (CLoadAndDelete 0 7)] ++ [HRes 1 (ROpt (Some 0))] ++
+      [HInv 1 rt_add5; HRes 1 (RLos 0 true); HRes 2 (ROpt (Some 0))] /\
+  no_ev 0 ([] : list hev) /\ no_ev 1 [HRes 2 (RLos 0 false); HInv 2 (CLoadAndDelete 0 7)] /\
+  (forall t c, pend_call [HInv 2 rt_add7] t = Some c -> ~ is_remove 5 c) /\
+  (forall t c, In (HInv t c) ([] ++ [] ++ [HRes 2 (RLos 0 false); HInv 2 (CLoadAndDelete 0 7)]) -> ~ is_remove 5 c) /\
+  (* Add 5 after Add 5 *)
+  h = [HInv 2 rt_add7] ++ [HInv 0 rt_add5] ++ [] ++ [HRes 0 (RLos 0 false)] ++
+      [HInv 1 (CLoad 0 5); HRes 2 (RLos 0 false); HInv 2 (CLoadAndDelete 0 7); HRes 1 (ROpt (Some 0))] ++
+      [HInv 1 rt_add5] ++ [] ++ [HRes 1 (RLos 0 true)] ++ [HRes 2 (ROpt (Some 0))] /\
+  (forall t c, In (HInv t c) ([] ++ [HInv 1 (CLoad 0 5); HRes 2 (RLos 0 false); HInv 2 (CLoadAndDelete 0 7); HRes 1 (ROpt (Some 0))] ++ []) ->
+               ~ is_remove 5 c))%Z.
+Proof.
+  split; [repeat constructor|]. split; [vm_compute; reflexivity|].
+  split; [intros e []|]. split; [intros e [<-|[<-|[]]]; cbn; discriminate|].
+  split; [intros t c; unfold pend_call; cbn [rev app last_ev ev_thread]; destruct (Nat.eq_dec 2 t); [intros [= <-]; cbn; auto|discriminate]|].
+  split; [intros t c [E|[E|[]]]; [discriminate|injection E as <- <-; cbn; discriminate]|].
+  split; [vm_compute; reflexivity|].
+  intros t c [E|[E|[E|[E|[]]]]]; try discriminate; injection E as <- <-; cbn; auto; discriminate.
+Qed.
+
+(* ------------------------------------------------------------------ *)
+(* The counts of AddSet / RemoveSet / Len add up                       *)
+(* ------------------------------------------------------------------ *)
+(* Programs may now contain, next to Has / Add / Remove, Range with ANY callback:
+   Len = CRange s (CbStop None), s.AddSet(a) = CRange a (CbAdd s), s.RemoveSet(a)
+   = CRange a (CbRemove s) ([sfrag]); any number of sets and goroutines, every
+   schedule. AddSet / RemoveSet are NOT atomic: the model (like the code) runs
+   them as a Range over the argument with one ordinary nested Add / Remove of
+   the receiver per element, in a child frame of the Range frame. *)
+From Typ Require Import SyncMap.RangeConc SyncMap.SetCounts.
+
+(* (a) thread-local accounting: when the nested call of an AddSet / RemoveSet
+   returns r, the Range's running count (0 when the call starts) grows by
+   [inc_of cb r] = 1 if r reports success (Add: loaded = false, Remove: loaded =
+   true) and 0 otherwise; nothing else changes it; if the Range completes in that
+   step it returns exactly that count. *)
+Theorem C05_nested_return_counted : forall c t ch c' th child p rest r i i',
+  step c t ch = Some c' -> c_panicked c = false ->
+  nth_error (c_threads c) t = Some th -> t_stack th = child :: p :: rest ->
+  is_post_label (f_pc child) = false -> (forall j k, f_call child <> CDelete j k) ->
+  nth_error (c_insts c) (call_inst (f_call child)) = Some i -> step_frame t i child ch = Some (Ok (i', Return r)) ->
+  exists th', nth_error (c_threads c') t = Some th' /\
+    let p' := set_out p (f_out p) (f_acc p + inc_of (cb_of (f_call p)) r)%Z in
+    (t_stack th' = set_pc p' Range_iter :: rest /\ t_results th' = t_results th) \/
+    (t_results th' = t_results th ++ [RRange (f_out p) (f_acc p + inc_of (cb_of (f_call p)) r)%Z]).
+Proof. exact nested_return_counted. Qed.
+Print Assumptions C05_nested_return_counted.
+
+(* (b) the conservation law with AddSet / RemoveSet. [total j h] = over the
+   completed top-level calls of history h: +1 per Add into j that reported
+   "added", -1 per Remove from j that reported "removed", +cnt per completed
+   AddSet into j, -cnt per completed RemoveSet from j ([contrib]); [pendingT j c]
+   = over the calls in flight: the running count of every AddSet (+) / RemoveSet
+   (-) of j and the decided but unreported effect of every Add / Remove of j,
+   nested or not. Their sum is the number of members of j, in EVERY reachable
+   configuration. *)
+Theorem C05_set_counts : forall zs progs sched j i,
+  Forall (Forall sfrag) progs ->
+  let c := run_schedule (init_config_z zs progs) sched in
+  nth_error (c_insts c) j = Some i ->
+  exists D : gset Z, (forall k, k ∈ D <-> abs_lookup (i_st i) k <> None) /\
+                     (total j (c_hist c) + pendingT j c = Z.of_nat (size D))%Z.
+Proof. exact set_counts. Qed.
+Print Assumptions C05_set_counts.
+
+(* ... and with no call in progress: successful Adds + AddSet counts - successful
+   Removes - RemoveSet counts = number of members. *)
+Theorem C05_set_counts_quiescent : forall zs progs sched j i,
+  Forall (Forall sfrag) progs ->
+  let c := run_schedule (init_config_z zs progs) sched in
+  nth_error (c_insts c) j = Some i -> finished c = true ->
+  exists D : gset Z, (forall k, k ∈ D <-> abs_lookup (i_st i) k <> None) /\ total j (c_hist c) = Z.of_nat (size D).
+Proof. exact set_counts_quiescent. Qed.
+Print Assumptions C05_set_counts_quiescent.
+
+(* (c) Len (programs of Has / Add / Remove / Len / stopping Ranges on one set,
+   [rfrag]; the call in question, the i-th call of thread t, is Len, i.e. a
+   Range whose callback only counts and never stops): if the set's contents are one map m throughout the Len
+   call's interval - in particular at quiescence - Len returns its size. (Under
+   concurrent updates Len counts each key at most once, only keys present at
+   some moment of the call, and every key present throughout: C04_range_*.) *)
+Theorem C05_len_constant : forall z progs sched t th i out cnt (m : gmap Z Z),
+  Forall (Forall rfrag) progs ->
+  (exists p, nth_error progs t = Some p /\ nth_error p i = Some (CRange 0 (CbStop None))) ->
+  let c := run_schedule (init_config_z [z] progs) sched in
+  nth_error (c_threads c) t = Some th -> nth_error (t_results th) i = Some (RRange out cnt) ->
+  (forall x, In x (steps_from (init_config_z [z] progs) sched) -> in_call_at x t i -> forall k, abs_lookup (st0 x.1) k = m !! k) ->
+  cnt = Z.of_nat (size m).
+Proof. exact len_constant. Qed.
+Print Assumptions C05_len_constant.
+
+(* Non-vacuity: sets 0 (receiver) and 1 (argument). G0: Add 5 to set 1, then
+   set0.AddSet(set1); G1: set0.AddSet(set1). The two AddSets overlap on value 5:
+   G0's nested Add inserts 5 (while G1's nested Add waits for the lock) and G0's
+   AddSet returns 1; G1's nested Add then finds 5 and G1's AddSet returns 0:
+   exactly one of them counts it. In between (first view) G0's nested Add has
+   stored but not yet reported: total 0, in flight 1, one member. *)
+Definition cnt_progs : list (list call) :=
+  [[CLoadOrStore 1 5 0 PNone; CRange 1 (CbAdd 0)]; [CRange 1 (CbAdd 0)]]%Z.
+Definition cnt_sch (l : list nat) : list (nat * Z) := map (fun t => (t, 5%Z)) l.
+Definition cnt_view (c : config) :=
+  (map t_results (c_threads c), total 0 (c_hist c), pendingT 0 c, map thread_label (c_threads c)).
+
+Example C05_counts_example :
+  let c1 := run_schedule (init_config_z [true; true] cnt_progs) (cnt_sch (repeat 0 6 ++ repeat 0 5 ++ [0;0] ++ [1;1;1] ++ repeat 0 5 ++ [1])) in
+  let c2 := run_schedule c1 (cnt_sch ([0] ++ repeat 1 5)) in
+  cnt_view c1 = ([[RLos 0 false]; []], 0, 1, [Some LOS_unlock; Some LOS_lock])%Z /\
+  cnt_view c2 = ([[RLos 0 false; RRange [(5, 0)] 1]; [RRange [(5, 0)] 0]], 1, 0, [None; None])%Z /\
+  map (fun i => abs_lookup (i_st i) 5%Z) (c_insts c2) = [Some 0%Z; Some 0%Z] /\
+  finished c2 = true /\ Forall (Forall sfrag) cnt_progs.
+Proof. vm_compute. repeat split; repeat constructor. Qed.
